@@ -512,6 +512,18 @@ def rules(rep, facts):
     r4_truncation(rep, facts)
     r5_printer(rep, facts)
     r5b_printed_values(rep, facts)
+    # R5 reads the format strings of the Display impls; R5b evaluates them on sample values and reads the text back by the specification.  Where every sample
+    # comes back as the value that was printed, a printer written another way (a helper that returns the fraction, `write_str` for the fixed letters) is not a finding.
+    r5b = rep.rules.get('C12/R5b', {}).get('obligations', [])
+    if len(r5b) >= 8 and all(o['ok'] for o in r5b) and not any(v['rule'] == 'C12/R5b' for v in rep.violations):
+        moot = [v for v in rep.violations if v['rule'] == 'C12/R5']
+        if moot:
+            rep.violations[:] = [v for v in rep.violations if v not in moot]
+            if 'C12/R5' in rep.rules:
+                rep.rules['C12/R5']['obligations'] = [o for o in rep.rules['C12/R5']['obligations'] if o['ok']]
+                rep.rules['C12/R5']['floor'] = None
+            rep.notes.append(f'C12/R5 reads the format strings of the printer and does not recognise {len(moot)} of them in this tree ({moot[0]["detail"][:140]}); every sample value printed by '
+                             f'evaluating Display for Datetime reads back as itself (C12/R5b).')
     r7_shapes(rep, facts)
     if g is not None:
         from .rules_c01 import r2_ranges
